@@ -875,6 +875,24 @@ Theorem local_seed_refuted :
     finished st = true /\ hashes (trace st) = [6; 5].
 Proof. exists [0;1;0;1;0;1;0;1;0;1;0;1]%nat. vm_compute. split; reflexivity. Qed.
 
+(* a single draw, no retry: when the random source returns the sentinel -1 nothing is
+   installed, that call hashes with -1 and the next call draws again — even ONE thread gets
+   two different hashes *)
+Definition noretry_impl : impl_t := mkImpl atomic_get atomic_put noretry_seed.
+Definition rnd_sentinel_first : nat -> Z := fun i => match i with O => -1 | _ => 5 + Z.of_nat i end.
+
+Theorem noretry_seed_refuted :
+  exists sch, let st := run noretry_impl rnd_sentinel_first (init_state rc_two [([Hash; Hash], h1 0)]) sch in
+    finished st = true /\ hashes (trace st) = [6; -1] /\ installs (trace st) = [6; -1].
+Proof. exists [0;0;0;0;0;0;0;0;0;0]%nat. vm_compute. repeat split; reflexivity. Qed.
+
+(* the regenerated program under the same random source: the retry skips the sentinel *)
+Example seed_example_sentinel :
+  let st := run ThreadImpl.impl rnd_sentinel_first (init_state rc_two [([Hash; Hash], h1 0)])
+                [0;0;0;0;0;0;0;0;0;0;0;0]%nat in
+  finished st = true /\ hashes (trace st) = [6; 6] /\ installs (trace st) = [6].
+Proof. vm_compute. repeat split; reflexivity. Qed.
+
 (* a plain store instead of the CAS: a later hash differs from an earlier one *)
 Theorem store_seed_refuted :
   exists sch, let st := run store_impl rnd_ex (init_state rc_two [([Hash], h1 0); ([Hash; Hash], h1 0)]) sch in
